@@ -349,6 +349,9 @@ func (fx *FnCtx) Finalize() {
 			b.WriteString("; path: " + strings.Join(q.pending.trace, " / ") + "\n")
 		}
 		b.WriteString(prelude)
+		for _, f := range fx.globalFacts {
+			b.WriteString("(assert " + f + ")\n")
+		}
 		for _, f := range q.pending.facts {
 			b.WriteString("(assert " + f + ")\n")
 		}
